@@ -300,7 +300,22 @@ fn case_from_spec(
             term_of_core[*c] = si;
         }
     }
-    let usable: Vec<usize> = (0..core.term_names.len()).filter(|&c| Some(c) != core.error_term).collect();
+    // The built-in lexer only knows the terminals that occur in some
+    // production (after macro expansion); any other text is an InvalidToken,
+    // not a token. Extern token enums know every declared conversion.
+    let used_terms: BTreeSet<usize> = core
+        .prods
+        .iter()
+        .flat_map(|p| p.rhs.iter())
+        .filter_map(|s| match s {
+            crate::model::cfg::Sym::T(t) => Some(*t),
+            _ => None,
+        })
+        .collect();
+    let builtin_lexer = spec.lexer == Lexer::Builtin;
+    let usable: Vec<usize> = (0..core.term_names.len())
+        .filter(|&c| Some(c) != core.error_term && (!builtin_lexer || used_terms.contains(&c)))
+        .collect();
     let starts: Vec<(usize, String)> = core.starts.iter().map(|&s| (s, core.nts[s].name.clone())).collect();
     let mut inputs = vec![];
     let generate = fixed_inputs.is_none();
@@ -687,7 +702,7 @@ fn evaluate_cases(
                 ck.class_n("units_rejected_by_lalrpop", 1);
             }
         }
-        if batch.accepted[i] && !batch.compiled(&u.module) {
+        if batch.accepted[i] && u.compile && !batch.compiled(&u.module) {
             // C19 territory; reported there. Here: counted.
             if count {
                 ck.class_n("units_failed_to_compile(C19 domain)", 1);
@@ -1494,7 +1509,7 @@ fn evaluate_cases(
             if c.recursive {
                 ck.class("grammars_recursive");
             }
-            if ck.want_sample() && gi % 5 == 0 && !c.inputs.is_empty() {
+            if ck.want_sample() && (gi % 5 == 0 || ck.samples.len() < 2) && !c.inputs.is_empty() {
                 let m0 = module_name(gi, Algo::Lane, false);
                 let acc = unit_idx.get(&m0).map(|i| batch.accepted[*i]).unwrap_or(false);
                 if acc {
